@@ -1,6 +1,7 @@
 """Obligations, verdicts, known findings, pinned instance counts, evidence."""
 import json
 import os
+import sys
 import time
 
 PROVED, REFUTED, UNKNOWN = "PROVED", "REFUTED", "UNKNOWN"
@@ -208,7 +209,9 @@ class Check:
                 f"{len(findings)} known findings, {len(violations)} violations, {len(unknowns)} unknown; "
                 f"{len(self.functions)} functions, {len(self.files)} files, {wall:.2f}s")
         if not self.quiet:
-            print(head)
-            for l in out:
-                print(l)
+            try:
+                sys.stdout.write("\n".join([head] + out) + "\n")
+                sys.stdout.flush()
+            except BrokenPipeError:
+                pass
         return code
